@@ -463,7 +463,8 @@ Proof. intros H. destruct o; cbn [opt_chunk]; repeat constructor. exact H. Qed.
 Lemma ty4_data_chunks t ds : length t = 4%nat -> Forall ty4 (concat (map (data_chunks t) ds)).
 Proof.
   intros H. induction ds as [|d ds IH]; cbn [map concat]; [constructor|].
-  apply Forall_app. split; [|exact IH]. destruct d; cbn [data_chunks]; repeat constructor. exact H.
+  apply Forall_app. split; [|exact IH]. unfold data_chunks, data_chunks_at.
+  apply Forall_forall. intros c Hc. apply in_map_iff in Hc. destruct Hc as (p & <- & _). exact H.
 Qed.
 
 Lemma ty4_map {A} t (f : A -> bytes) l : length t = 4%nat -> Forall ty4 (map (fun x => mk t (f x)) l).
